@@ -1121,7 +1121,13 @@ class P(Prop):
             bands.append([name if (r.getAFMap(idx) is m and m.getName() == name) else name + " (getAFMap by index / getName differ)", grid])
         vals = None
         if hasattr(r, "collectionValuesGrid"):
-            vals = {af: [[[self.num(v) for v in cell] for cell in row] for row in grid] for af, grid in r.collectionValuesGrid.items()}
+            # an INTERNAL structure (the property's observation points are the bands and getCell): read as documented
+            # (feature -> rows -> cells -> values); when it cannot be read that way the harness says so and the oracle gives no
+            # verdict on it (the model comparison still reports the difference)
+            try:
+                vals = {af: [[[self.num(v) for v in cell] for cell in row] for row in grid] for af, grid in r.collectionValuesGrid.items()}
+            except Exception as e:
+                vals = "unreadable (%s)" % type(e).__name__
         return {"geo": [r.xmin, r.xmax, r.ymin, r.ymax, r.ncol, r.nrow], "nodata": r.getNoDataValue(), "bands": bands, "values": vals}
 
     def obs_cells(self, r, tracks):
@@ -1377,8 +1383,8 @@ class P(Prop):
     def check_values(self, geo, values, tracks, cells, afs):
         """collectionValuesGrid: per feature, every cell holds exactly the values of the observations located in it"""
         ncol, nrow = geo[4], geo[5]
-        if values is None:
-            return None                                             # no collectionValuesGrid attribute to look at: the bands are what counts
+        if values is None or not isinstance(values, dict):
+            return None                                             # no collectionValuesGrid (or not in the documented form) to look at: the bands are what counts
         if sorted(values) != sorted(afs):
             return "values are kept for the features %s, the bands need %s" % (sorted(values), sorted(afs))
         for f in afs:
@@ -1425,7 +1431,10 @@ class P(Prop):
                 m = self.check_extent(b, mg, snap["geo"])
                 if m:
                     return where + m
-                if snap["bands"] or snap["values"] is not None:
+                # a new raster holds no band and no value of an observation (an empty collectionValuesGrid created by the
+                # constructor would be an internal choice, not a failure)
+                held = isinstance(snap["values"], dict) and any(cell for g in snap["values"].values() for row in g for cell in row)
+                if snap["bands"] or held:
                     return where + "a new raster has bands %s / values %s" % (snap["bands"], snap["values"])
                 cur, last = {"res": res, "bands": []}, None
                 continue
